@@ -1,6 +1,7 @@
 package c01
 
 import (
+	"bytes"
 	"fmt"
 	"strings"
 	"testing"
@@ -19,6 +20,7 @@ type Txn struct {
 	Rcpts  []string    `json:"rcpts"`  // addresses put inside "RCPT TO:<...>"
 	End    string      `json:"end"`    // data | rset | ehlo | mail | quit | drop | none
 	Msg    *hx.MailMsg `json:"msg,omitempty"`
+	TooBig bool        `json:"too_big,omitempty"`
 }
 
 // Case is a configuration plus several connections of several transactions.
@@ -61,9 +63,15 @@ var txnGen = rapid.Custom(func(t *rapid.T) Txn {
 		}
 		x.Rcpts = append(x.Rcpts, r)
 	}
-	x.End = rapid.SampledFrom([]string{"data", "data", "data", "data", "data", "rset", "ehlo", "mail", "quit", "drop", "none"}).Draw(t, "end")
+	x.End = rapid.SampledFrom([]string{"data", "data", "data", "data", "data", "bigdata", "rset", "ehlo", "mail", "quit", "drop", "none"}).Draw(t, "end")
 	if x.End == "data" {
 		x.Msg = hx.MailMsgGen(hx.SimpleBodyGen, 10).Draw(t, "msg")
+	}
+	if x.End == "bigdata" {
+		// a message over the configured maximum size: must be refused and add nothing
+		x.End = "data"
+		x.Msg = &hx.MailMsg{Subject: "too big", Body: bytes.Repeat([]byte("0123456789abcdef\r\n"), 400)}
+		x.TooBig = true
 	}
 	return x
 })
@@ -80,6 +88,7 @@ var prop = hx.Prop[Case]{
 	Quick: 1000, Thorough: 4000,
 	Gen: func(t *rapid.T) Case {
 		cfg := hx.PolicyCfgGen(hx.DefaultCfg()).Draw(t, "cfg")
+		cfg.MaxMessageBytes = 4000 // every generated message but the "too big" one is far below this
 		if rapid.Bool().Draw(t, "permissive") {
 			// half of the cases accept and store by default so that deliveries are frequent
 			cfg.DefaultAccept, cfg.DefaultStore, cfg.RejectOrigin = true, true, nil
@@ -207,6 +216,9 @@ func run(c Case) *hx.Outcome {
 						ended = true
 						break
 					}
+					if r.Code == 250 && x.TooBig {
+						o.Failf(pid+":oversize-accepted", "%s: a %d-byte message was acknowledged under a 4000-byte limit", where, len(data))
+					}
 					if r.Code == 250 {
 						from, to, subj := x.Msg.Expect(sender, accepted)
 						for _, rc := range accepted {
@@ -229,7 +241,7 @@ func run(c Case) *hx.Outcome {
 								Data: transmitted, NotBefo: t0, NotAfter: time.Now()})
 						}
 					} else {
-						if !x.Msg.BadHeader {
+						if !x.Msg.BadHeader && !x.TooBig {
 							o.Failf(pid+":valid-refused", "%s: well-formed message to accepted recipients answered %v", where, r)
 						}
 						if len(accepted) > 0 {
